@@ -454,3 +454,70 @@ def mix_set(tier):
         structs.append(mix_struct(n))
         structs.append(mix_builder_struct(n))
     return structs
+
+
+# ------------------------------------------------------------------------------------------------
+# C19: debug layouts (all fields readable scalars)
+
+def debug_structs(tier):
+    out = []
+    bases = (3, 8, 12, 16, 24, 32, 64, 100, 128) if tier == 'quick' else tuple(range(1, 17)) + (17, 24, 31, 32, 33, 48, 63, 64, 65, 96, 100, 127, 128)
+
+    def cands(n):
+        c = []
+        c.append(lambda: Field([(0, 1)], 'b'))
+        c.append(lambda: Field([(n - 1, 1)], 'b', access='r'))
+        if n >= 3:
+            c.append(lambda: Field([(0, 3)], 'u'))
+            c.append(lambda: Field([(n - 3, 3)], 'o', enum=ne_enum(3)))
+            c.append(lambda: Field([(1, 2)], 'e', enum=ex_enum(2), access='r'))
+        if n >= 4:
+            c.append(lambda: Field([(n - 4, 4)], 'c', inner_n=4))
+            c.append(lambda: Field([(n - 1, 1), (0, 2)], 'u'))                 # multi-range
+            c.append(lambda: Field([(2, 2), (0, 2)], 'u', access='r'))
+        if n >= 8:
+            c.append(lambda: Field([(n - 8, 8)], 'n'))
+            c.append(lambda: Field([(0, 8)], 'i'))
+            c.append(lambda: Field([(0, 8)], 'o', enum=ne_enum(8)))
+            c.append(lambda: Field([(n - 8, 8)], 'c', inner_n=8))
+        if n >= 12:
+            c.append(lambda: Field([(n - 12, 12)], 'u'))
+            c.append(lambda: Field([(8, 4), (0, 4)], 'i'))
+        if n >= 16:
+            c.append(lambda: Field([(n - 16, 16)], 'i'))
+        if n >= 64:
+            c.append(lambda: Field([(n - 64, 64)], 'n'))
+            c.append(lambda: Field([(0, 64)], 'i'))
+        if n > 64:
+            c.append(lambda: Field([(0, n)], 'u' if n not in NATIVE else 'n'))
+        if n == 128:
+            c.append(lambda: Field([(0, 128)], 'i'))
+        c.append(lambda: Field([(0, n)], 'n' if n in NATIVE else 'u'))
+        return c
+
+    for n in bases:
+        cs = cands(n)
+        p = [('full', 'full')] if n <= 16 else [('alpha', 'alpha')]
+        # single-field structs of every kind
+        for mk in cs:
+            out.append(Struct(n, [mk()], debug=True, twin=True, family='DBG1', passes=p))
+        # windows of 2..5 fields in three declaration orders
+        k = 0
+        for size in (2, 3, 4, 5):
+            for startc in range(0, max(1, len(cs) - size + 1), 2):
+                fs = [mk() for mk in cs[startc:startc + size]]
+                if len(fs) < size:
+                    continue
+                k += 1
+                order = k % 3
+                if order == 1:
+                    fs.reverse()
+                elif order == 2:
+                    fs = fs[1:] + fs[:1]
+                out.append(Struct(n, fs, debug=True, twin=True, family='DBGN', passes=p, default=(1 if k % 4 == 0 else None)))
+        # every candidate at once
+        out.append(Struct(n, [mk() for mk in cs], debug=True, twin=True, family='DBGALL', passes=p))
+        out.append(Struct(n, [mk() for mk in reversed(cs)], debug=True, twin=True, family='DBGALL', passes=p))
+        # no fields at all
+        out.append(Struct(n, [], debug=True, twin=True, family='DBG0', passes=p))
+    return out
